@@ -11,7 +11,10 @@ SeqSet(s) == {s[j] : j \in 1..Len(s)}
 IndexIn(s, x) == CHOOSE j \in 1..Len(s) : s[j] = x
 FunOfLists(keys, vals) == [R \in SeqSet(keys) |-> vals[IndexIn(keys, R)]]
 SysOfJson(j) == [nw |-> j.nw, cen |-> j.cen, rs |-> SeqSet(j.rs), H |-> FunOfLists(j.rs, j.H), hasX |-> j.hasX,
-                 X |-> FunOfLists(j.rs, j.X), spinor |-> j.spinor]
+                 X |-> FunOfLists(j.rs, j.X), spinor |-> j.spinor, M |-> NoM]
+(* named matrices of a record: names = <<name, ...>>, mats[i][r][c] = orbital matrix of name i at R-vector number r (order of
+   sys.rs), Cartesian component c *)
+NamedOfJson(j, names, mats) == [SysOfJson(j) EXCEPT !.M = [n \in SeqSet(names) |-> FunOfLists(j.rs, mats[IndexIn(names, n)])]]
 SocOfJson(j) == [up |-> SysOfJson(j.up), dn |-> SysOfJson(j.dn), hassoc |-> j.hassoc, rsS |-> SeqSet(j.rsS),
                  D |-> [st \in {"00", "11", "01"} |-> FunOfLists(j.rsS, j.D[st])], P |-> j.P, al |-> j.al]
 SysEq(a, b) == /\ a.nw = b.nw /\ a.cen = b.cen /\ a.hasX = b.hasX
@@ -31,6 +34,13 @@ RotateClauses == LET s == SysOfJson(Rec.sys)  o == SysOfJson(Rec.out) IN
      cocentred   |-> CoCentred(s, Rec.U),
      equals_spec |-> SysEq(o, Rotate(s, Rec.U)),
      laws        |-> RotateLaws(s, Rec.U, o, KSof(s.rs), C3) ]
+(* reorder / rotation of a system that carries every real-space matrix the package knows *)
+NamedClauses == LET s == NamedOfJson(Rec.sys, Rec.names, Rec.mats)  o == NamedOfJson(Rec.out, Rec.names, Rec.outmats) IN
+   [ ranks       |-> \A j \in 1..Len(Rec.names) : \A r \in 1..Len(Rec.mats[j]) : Len(Rec.mats[j][r]) = NComp(Rec.names[j]),
+     equals_spec |-> IF Rec.fn = "reorder_named" THEN SysEq(o, Reorder(s, Rec.p)) /\ SameM(s, o, LAMBDA A : PermuteMat(A, Rec.p))
+                     ELSE SysEq(o, Rotate(s, Rec.U)) /\ SameM(s, o, LAMBDA A : Conjugate(Rec.U, A)),
+     laws        |-> IF Rec.fn = "reorder_named" THEN ReorderLaws(s, Rec.p, o, KSof(s.rs), C3)
+                     ELSE IsUnitary(Rec.U) /\ CoCentred(s, Rec.U) /\ RotateLaws(s, Rec.U, o, KSof(s.rs), C3) ]
 DoubleSpinClauses == LET s == SysOfJson(Rec.sys)  o == SysOfJson(Rec.out) IN
    [ equals_spec |-> SysEq(o, DoubleSpin(s)),
      laws        |-> DoubleSpinLaws(s, o, KSof(s.rs), C3),
@@ -109,6 +119,7 @@ CornerClauses ==
 
 Clauses == CASE Rec.fn = "reorder" -> ReorderClauses
              [] Rec.fn = "rotate" -> RotateClauses
+             [] Rec.fn \in {"reorder_named", "rotate_named"} -> NamedClauses
              [] Rec.fn = "doublespin" -> DoubleSpinClauses
              [] Rec.fn = "soc_hk" -> SocHkClauses
              [] Rec.fn = "toplain" -> ToPlainClauses
